@@ -23,7 +23,7 @@ Rec == LET i == out'.id IN
      ELSE [op |-> "add", id |-> i, parent |-> decl'[i], work |-> hdr'[i].w, root |-> hdr'[i].root, forb |-> FALSE,
            res |-> out'.res, fault |-> out'.fault,
            dev |-> IF out'.res = "L" /\ hdr'[i].w = 0 /\ "ZeroWorkTipExtension" \in Deviations THEN "ZeroWorkTipExtension" ELSE ""])
-  @@ [st |-> SnapSt(rows', next'), ht |-> SnapH(rows', next'), cum |-> SnapC(rows', next'), tip |-> FirstLAt(Max({rows'[j].height : j \in LongestOf(rows')}))]
+  @@ [st |-> SnapSt(rows', next'), ht |-> SnapH(rows', next'), cum |-> SnapC(rows', next'), tip |-> SqlTipOf(rows')]
 
 MSInit == SInit /\ hist = <<>>
 MSNext == /\ Len(hist) < MaxOps
